@@ -6,10 +6,12 @@ CONSTANTS
   MaxInj = 2
   InjKinds = {"fd", "fdn", "fe", "fen", "unk"}
   RSizes = {"one", "small", "big"}
+  Concurrent = TRUE
+  AtomicFrames = TRUE
   Gen = FALSE
   Emit = FALSE
 INIT Init
 NEXT Next
 VIEW view
-INVARIANTS TypeOK WritesAccepted InOrderPrefix NoForeignStrict EofCompleteStrict DoneComplete ReaderAllocBound
+INVARIANTS TypeOK FramesAtomic WritesAccepted InOrderPrefix NoForeignStrict EofCompleteStrict DoneComplete ReaderAllocBound
 CHECK_DEADLOCK FALSE
